@@ -561,7 +561,13 @@ impl Array {
                 .collect();
 
             for _ in 0..leading_length {
-                let output_offset = flatten_indices(&indices, &output_dimensions);
+                // the leading dimensions of the output are those of the input, whatever follows them
+                let output_offset = output_group_length
+                    * indices
+                        .iter()
+                        .zip(output_dimensions.iter())
+                        .take(leading_count)
+                        .fold(0, |acc, (i, d)| acc * d + if *d == 1 { 0 } else { *i });
                 let output_slice =
                     &mut output_values[output_offset..output_offset + output_group_length];
 
